@@ -20,6 +20,18 @@ func runSeq(rep *explore.Report, prop, tier string) {
 		return
 	}
 	lo, hi := sizes(tier)
+	// first, alone in the process and on one worker: small tables with a second seat manager living
+	// beside them (created and driven along a script after every operation of the table under test)
+	before := rep.ViolationCount()
+	for _, n := range []int{2, 3} {
+		c := &Check{Property: prop, Rep: rep, N: n, DevBound: -1, MaxState: 6000000, Beside: true, Workers: 1}
+		c.RunReplay()
+	}
+	rep.Set("second_table_in_process", "tables of 2 and 3 seats are explored once more with a second seat manager (4 seats, 16 scripted operations and queries) created and played after every operation of the table under test; sequential, before anything else")
+	if rep.ViolationCount() > before {
+		rep.Cap("the exploration beside a second table violated the property: the rest of the check was skipped")
+		return
+	}
 	for n := lo; n <= hi; n++ {
 		dev := -1
 		switch {
@@ -60,9 +72,15 @@ func RunC17(rep *explore.Report, tier string) {
 func RunC18(rep *explore.Report, tier string) {
 	lo, hi := sizes(tier)
 	rep.Set("rule", fmt.Sprintf("sequential: every reachable seat map of tables with %d..%d seats x every operation incl. out-of-range ids and every rand/map-order answer of Join(-1), occupancy model + no panic; concurrent: every schedule of each harness with at most the stated number of preemptions (scheduling point before every statement and lock operation of seat_manager.go); distinct_nontrivial = distinct end-of-schedule outcomes over all harnesses", lo, hi))
-	runSeq(rep, "C18", tier)
+	// the schedules first: a seat manager that shares anything between tables or threads makes the
+	// parallel sequential search below nondeterministic, and that must not mask the reproducible schedule
 	RunConcurrent(rep, tier, "")
 	racePass(rep)
+	if rep.ViolationCount() > 0 {
+		rep.Cap("the concurrent harnesses violated the property: the sequential exploration was skipped")
+		return
+	}
+	runSeq(rep, "C18", tier)
 	rep.Set("distinct_nontrivial", rep.Get("concurrent_distinct_outcomes"))
 	rep.Set("evaluations", rep.Get("executions")+rep.Get("schedules"))
 	rep.Assumption("scheduling points at statement granularity and at lock operations; memory-model effects below that are only covered by the separate free-running -race pass of the thorough tier")
